@@ -100,7 +100,7 @@ type c12Sched struct {
 	Type       string `json:"type"`      // asa | panos
 	Holder     string `json:"holder"`    // drc-approve | drc-compare | doapprove-approve | doapprove-compare
 	Phase      string `json:"phase"`     // after-lock | login | config-read | mid-apply | save | before-status
-	Contender  string `json:"contender"` // drc-abs | drc-rel | drc-current | drc-compare-abs | doapprove-approve | doapprove-compare | drc-compare-nolog | drc-nolog (without -L)
+	Contender  string `json:"contender"` // drc-abs | drc-rel | drc-current | drc-compare-abs | doapprove-approve | doapprove-compare | drc-compare-nolog | drc-nolog (without -L) | drc-compare-flock-enolck (flock fails with ENOLCK, injected by strace)
 	NContend   int    `json:"n_contenders"`
 	KillHolder bool   `json:"kill_holder"`
 }
@@ -363,6 +363,8 @@ func runC12(env *run.Env, sc *c12Sched, refEvents map[string][]sim.Event) c12Res
 			clc.Compare, clc.NoLogDir = true, true
 		case "drc-nolog":
 			clc.NoLogDir = true
+		case "drc-compare-flock-enolck":
+			clc.Compare = true
 		case "drc-rel":
 			clc.DeviceArg = "router"
 			cwd = filepath.Join(base, "policies/p1/code")
@@ -375,6 +377,12 @@ func runC12(env *run.Env, sc *c12Sched, refEvents map[string][]sim.Event) c12Res
 			clc.Compare = true
 		}
 		cargv, cenv := clc.command(env, dir, home, base, contSim)
+		if sc.Contender == "drc-compare-flock-enolck" {
+			// The lock call itself fails (lock directory on a file system
+			// without lock manager): whatever the reason why the lock was
+			// not obtained, the run must not go on.
+			cargv = append([]string{"strace", "-f", "-qq", "-o", "/dev/null", "-e", "trace=flock", "-e", "inject=flock:error=ENOLCK"}, cargv...)
+		}
 		wg.Add(1)
 		go func(i int) {
 			defer wg.Done()
@@ -660,7 +668,7 @@ func checkC12(tier, replay string) int {
 					phases = append(phases, "before-status")
 				}
 				for _, ph := range phases {
-					for _, c := range []string{"drc-abs", "drc-compare-abs", "drc-rel", "drc-current", "doapprove-approve", "doapprove-compare", "drc-compare-nolog", "drc-nolog"} {
+					for _, c := range []string{"drc-abs", "drc-compare-abs", "drc-rel", "drc-current", "doapprove-approve", "doapprove-compare", "drc-compare-nolog", "drc-nolog", "drc-compare-flock-enolck"} {
 						for _, nc := range []int{1, 3} {
 							for _, kill := range []bool{false, true} {
 								n++
